@@ -84,6 +84,19 @@ NUM: /[0-9]+/
 %ignore /\s+/
 '''
 
+# literals whose terminal NAME has no cased character (caseless scripts, underscores): lark names an identifier-like literal by
+# value.upper(), and such a name is neither upper- nor lower-case
+G_UNI = '''
+start: stmt+
+stmt: "\u05d0\u05dd" NAME "\u05d0\u05d6" stmt -> ifs
+    | "__" NAME -> dunder
+    | "\u5982\u679c" NUM -> cjk
+    | NAME "=" NUM ";"
+NAME: /[a-z]+/
+NUM: /[0-9]+/
+%ignore " "
+'''
+
 G_KW = r'''
 start: stmt+
 stmt: "if"i cond "then" stmt -> ifs
@@ -279,6 +292,9 @@ _add(Entry('inl0', G_INL0, {'parser': 'lalr'},
            _prod(LX, {'ph': {}, 'noph': {'maybe_placeholders': False}, 'kat': {'keep_all_tokens': True}, 'pp': {'propagate_positions': True}}),
            samples={'NAME': ['x', 'ab'], 'NUM': ['1', '42']},
            texts=["(a) 1 @2!", "@#(b)!! 3 ()", "", "( 1", "@ ! 2", "1 2 (c) (d)", "()()@()!", "<a <b+ %1 %2~ 3", "@<x! %7", "<a+ +", "% ~"]))
+_add(Entry('uni', G_UNI, {'parser': 'lalr'}, _prod(LX, {'': {}, 'kat': {'keep_all_tokens': True}}),
+           samples={'NAME': ['x', 'ab'], 'NUM': ['1', '42']},
+           texts=["\u05d0\u05dd x \u05d0\u05d6 y = 1 ;", "__ ab x = 2 ;", "\u5982\u679c 7 __ q", "\u05d0\u05dd \u05d0\u05d6", "x = ; __", ""]))
 _add(Entry('kw', G_KW, {'parser': 'lalr'},
            _prod(LX, {'ph': {}, 'noph': {'maybe_placeholders': False}, 'pp': {'propagate_positions': True}}),
            samples={'NAME': ['foo', 'Bar', 'iff'], 'NUM': ['7', '10']},
@@ -355,10 +371,18 @@ class _Entries(dict):
                     del self[k]
             self[name] = e
             return e
+        if name in ('pkg:a', 'pkg:b'):
+            # a grammar shipped inside a Python package (sim/pkgs/): built with Lark.open_from_package, and the program hands every
+            # such call the same list of extra import paths (EXTRA_IMPORT_PATHS below)
+            e = Entry(name, None, {'parser': 'lalr'}, dict(LX), texts=['ab cd', '12 34', 'ab 12', ''], lalr=True)
+            e.package = ('verif_pkg_' + name[-1], 'main.lark', ['grammars'])
+            self[name] = e
+            return e
         raise KeyError(name)
 
 
 ENTRIES = _Entries(ENTRIES)
+EXTRA_IMPORT_PATHS = []          # the program's own constant, passed as import_paths= to every open_from_package call
 
 
 def gen_config(rng):
@@ -397,6 +421,12 @@ def build(cfg, **extra):
     from lark import Lark
     e, opts = options_for(cfg)
     opts.update(extra)
+    if getattr(e, 'package', None):
+        import sys, os
+        pk = os.path.join(os.path.dirname(os.path.abspath(__file__)), 'pkgs')
+        if pk not in sys.path:
+            sys.path.append(pk)
+        return Lark.open_from_package(*e.package, import_paths=EXTRA_IMPORT_PATHS, **opts)
     return Lark(e.grammar, **opts)
 
 
